@@ -308,7 +308,16 @@ func setupRelayProxy(c *casket.Controller) error {
 		px := proxy.Proxy{Next: next, Upstreams: ups}
 		return httpserver.HandlerFunc(func(w http.ResponseWriter, req *http.Request) (int, error) {
 			if rig.noHijack {
-				w = plainWriter{w}
+				// (bare: the proxy sees the writer net/http hands out over HTTP/2, no wrapper of a directive in between)
+				req = req.WithContext(context.WithValue(req.Context(), relayReqKey{}, req.Header.Get("X-Req")))
+				rig.seqMu.Lock()
+				rig.selT0["enter:"+req.Header.Get("X-Req")] = rig.c.Now()
+				rig.seqMu.Unlock()
+				st, err := px.ServeHTTP(plainWriter{w}, req)
+				rig.seqMu.Lock()
+				rig.servedAt[req.Header.Get("X-Req")] = rig.c.Now()
+				rig.seqMu.Unlock()
+				return st, err
 			}
 			m := &rwMonitor{ResponseWriterWrapper: &httpserver.ResponseWriterWrapper{ResponseWriter: w}, rig: rig, owner: goid(), id: req.Header.Get("X-Req")}
 			req = req.WithContext(context.WithValue(req.Context(), relayReqKey{}, req.Header.Get("X-Req")))
@@ -1090,6 +1099,11 @@ func (r *relayRig) judge() {
 	c := r.c
 	for _, l := range r.w.LogLines() {
 		if strings.Contains(l, "panic") || strings.Contains(l, "PANIC") {
+			if r.noHijack && strings.Contains(l, "is not a hijacker") {
+				// (pinned by the repository's own TestWebSocketReverseProxyNonHijackerPanic: a known finding)
+				c.Violate("C19/panic", "backend-101/front-connection-cannot-be-hijacked", "a backend's '101 Switching Protocols, Upgrade: websocket' made the proxy handler panic: %s", trunc([]byte(l), 200))
+				continue
+			}
 			c.Violate("C04/panic", "", "request handling panicked: %s", trunc([]byte(l), 300))
 			break
 		}
@@ -1259,7 +1273,7 @@ func (r *relayRig) judge() {
 		}
 		resp := fin[0]
 		if sc.status == 101 {
-			if resp.Status != 502 {
+			if resp.Status != 502 && resp.Status != 500 { // (500: the contained panic of the known finding)
 				c.Violate("C04/status-changed", "backend-101-without-hijacker", "request %d: the backend answered 101 Switching Protocols on a front connection that cannot be hijacked; the client got %d, want 502", q.id, resp.Status)
 			}
 			continue
